@@ -449,7 +449,7 @@ class BuildError(Exception):
     pass
 
 
-def run_impl(engine, cases, pid, debug_assertions=False, timeout=1800, extra_env=None, parallel=1):
+def run_impl(engine, cases, pid, debug_assertions=False, timeout=1800, extra_env=None, parallel=1, mem_limit_kb=4 * 1024 * 1024):
     """Run the harness engine over JSON cases; returns list of JSON results."""
     exe = build_harness(debug_assertions)
     sc = scratch("impl_%s_%s" % (pid, engine))
@@ -460,21 +460,39 @@ def run_impl(engine, cases, pid, debug_assertions=False, timeout=1800, extra_env
         chunks = [cases[i:i + k] for i in range(0, len(cases), k)]
 
     def one(idx):
-        cf = os.path.join(sc, "cases_%d.jsonl" % idx)
-        with open(cf, "w") as f:
-            for c in chunks[idx]:
-                f.write(json.dumps(c) + "\n")
-        p = sh([exe, engine, cf], cwd=sc, timeout=timeout, env=extra_env)
-        lines = [l for l in p.stdout.split("\n") if l.strip()]
+        """run one chunk; when the process dies (abort, OOM, signal) the case it was working on is marked
+        as crashed and the rest of the chunk is re-run in a fresh process"""
+        todo = list(chunks[idx])
         res = []
-        for l in lines:
+        attempt = 0
+        while todo:
+            cf = os.path.join(sc, "cases_%d_%d.jsonl" % (idx, attempt))
+            attempt += 1
+            with open(cf, "w") as f:
+                for c in todo:
+                    f.write(json.dumps(c) + "\n")
+            cmd = [exe, engine, cf]
+            if mem_limit_kb:
+                cmd = ["sh", "-c", "ulimit -v %d; exec \"$0\" \"$@\"" % mem_limit_kb] + cmd
             try:
-                res.append(json.loads(l))
-            except Exception:
-                res.append({"error": "unparsable: " + l[:200]})
-        if len(res) != len(chunks[idx]):
-            # the process died (abort, OOM, signal): attribute to the first case without result
-            res += [{"crash": "process ended with status %s after %d results: %s" % (p.returncode, len(lines), p.stderr[-500:])}] * (len(chunks[idx]) - len(res))
+                p = sh(cmd, cwd=sc, timeout=timeout, env=extra_env)
+                rc, so, se = p.returncode, p.stdout, p.stderr
+            except subprocess.TimeoutExpired as e:
+                rc, so, se = "timeout", (e.stdout or b"").decode("utf-8", "replace") if isinstance(e.stdout, bytes) else (e.stdout or ""), "TIMEOUT after %ss" % timeout
+            lines = [l for l in so.split("\n") if l.strip()]
+            got = []
+            for l in lines:
+                try:
+                    got.append(json.loads(l))
+                except Exception:
+                    got.append({"error": "unparsable: " + l[:200]})
+            got = got[:len(todo)]
+            res += got
+            if len(got) < len(todo):
+                res.append({"crash": "process ended with status %s while working on this case: %s" % (rc, se[-600:])})
+                todo = todo[len(got) + 1:]
+            else:
+                todo = []
         return res
 
     out = []
